@@ -46,8 +46,9 @@ type c28World struct {
 	finalIdx  int
 	settled   int
 	idleSince time.Duration
-	down      map[string]bool       // router crashed, restart pending
-	pendingRe map[string]bool       // edge has a reconnect action pending
+	down      map[string]bool // router crashed, restart pending
+	pendingRe map[string]bool // edge has a reconnect action pending
+	lateSubs  int
 	par       map[string]*fsub.Conn // second, parallel link of an edge (same fate)
 	wantEdge  map[string]uint64     // topology: edge -> link id to use on (re)connect (0 = fresh)
 }
@@ -64,7 +65,7 @@ func init() {
 		Cfg:        dsim.Config{MaxChaosSteps: 200, MaxStableSteps: 30000, Horizon: 20 * time.Second},
 		Real:       []string{"pubsub/floodsub.FloodSub routers (3-5 instances): AddPeerStream, Execute, subscription propagation, handlePublish, handleValidMessage, de-duplication cache, execPublish", "pubmessage signing/verification", "stream/packet framing"},
 		Stub:       []string{"routers are joined directly by simulator-owned streams (the pubsub controller and the transport controller are exercised under C29 instead)", "go-cache janitor goroutine not started"},
-		FaultKinds: []string{"fault:link-flap-same-tuple", "fault:link-flap-new-tuple", "fault:node-restart", "fault:clock-jump", "fault:chunking", "fault:parallel-link"},
+		FaultKinds: []string{"fault:link-flap-same-tuple", "fault:link-flap-new-tuple", "fault:node-restart", "fault:clock-jump", "fault:chunking", "fault:parallel-link", "fault:subscription-added-at-run-time"},
 	})
 }
 
@@ -172,7 +173,7 @@ func (w *c28World) Setup(s *dsim.Sim) {
 		s.Count("fault:parallel-link")
 	}
 	w.maxOps = 2 + t.Draw(14, "max-ops")
-	s.ArmFraction([]int{0, 0, 50, 100}[t.Draw(4, "arm-pct")], []string{"floodsub/", "go:pubsub/floodsub/"})
+	s.ArmFraction([]int{0, 0, 50, 100}[t.Draw(4, "arm-pct")], []string{"floodsub/", "go:pubsub/floodsub/", "cache/"})
 }
 
 // reconnect (re)establishes edge k if it is missing, both routers are up and no explicit
@@ -250,6 +251,21 @@ func (w *c28World) Actions(s *dsim.Sim, add func(dsim.Action)) {
 		for _, ch := range w.chans {
 			ch := ch
 			add(dsim.Action{Name: "3op:publish:" + nm + "/" + ch, Weight: 3, Fire: func() { w.ops++; w.publish(nd, ch) }})
+			// a node that does not subscribe to ch yet starts to (links come and go around it)
+			has := false
+			for _, sr := range nd.Subs {
+				if sr.Channel == ch {
+					has = true
+				}
+			}
+			if !has && w.lateSubs < 3 {
+				add(dsim.Action{Name: "3op:subscribe:" + nm + "/" + ch, Weight: 1, Fire: func() {
+					w.ops++
+					w.lateSubs++
+					s.Count("fault:subscription-added-at-run-time")
+					go func() { nd.Subscribe(ch) }()
+				}})
+			}
 		}
 	}
 	for _, k := range w.sortedEdges() {
